@@ -15,6 +15,7 @@ Bounds are non-negative integers counted in *grid steps* (discrete time: samples
 dense time: multiples of the quantum q).  The printer turns them into text with
 a bound printer, so the same tree can be spelled with different units.
 """
+import os
 from fractions import Fraction
 
 from hypothesis import strategies as st
@@ -277,7 +278,7 @@ class Profile(object):
         self.const_pred_only = False  # every predicate is  var cmp const
         self.temporal_in_arith = True  # FIN temporal formulas may appear under arithmetic
         self.var_bound = 8.0
-        self.no_future_under_past = False  # profile switch around the open C03 finding (warm-up of pastified past operators)
+        self.no_future_under_past = False  # profile switch that was used while the C03 warm-up finding was open (fixed: 0eaf2e3)
         for k, v in kw.items():
             if not hasattr(self, k):
                 raise AttributeError(k)
